@@ -278,6 +278,13 @@ func c07Run(job *Job, p c07Params, prefix []int) (out schedOut) {
 		if p.Shrink {
 			c0.ReadReply()
 		}
+		if p.LiveDels {
+			// let every deadline of the scenario pass and be swept before the observation:
+			// a DEL the sweeper logs later than the last look at the live connection
+			// would be missing there for no fault of the server
+			vsched.Sleep(int64(450 * stdtime.Millisecond))
+			vsched.Quiesce()
+		}
 		final, err := serverCanon(c0)
 		if err != nil {
 			out.Err = err.Error()
